@@ -1,6 +1,6 @@
 """C07 every accepted program compiles to SQL the selected dialect parses and binds."""
 import itertools, json, random, re
-import vlib, relgen, relcheck, corpus, starexpand, sqlite3, anchortrace, ctetrace
+import vlib, relgen, relcheck, corpus, starexpand, sqlite3, anchortrace, ctetrace, appendshapes, postrace
 from vlib import vh_batch, drv_batch
 from props.c01 import SAFE, FULL, UNDECL, RICH
 
@@ -18,7 +18,7 @@ MANIFEST = dict(
          "for pipelines of any length and any numbering of the fresh ids; (iii) on the mirror of compile_relation_instance (Model.CteOrder): "
          "table_refs_are_defined_earlier (for every ranked structure of relation bodies, any prefer_cte / allow_ctes flags and any nesting of "
          "sub-queries and CTEs, a relation is referenced by name only if it is a database table or a CTE already pushed to the WITH list - "
-         "hence defined earlier than the CTE containing the reference), no_relation_is_defined_twice (the WITH list has no repetition, for any structure). Ties: the recorded nesting of every compilation is replayed through "
+         "hence defined earlier than the CTE containing the reference), no_relation_is_defined_twice (the WITH list has no repetition, for any structure); (iv) on the mirror of the positional mapper of set operations (Model.Positional): stored_mapping_reprojects_before_to_after (the mapping stored for the bottom of a UNION / EXCEPT / INTERSECT re-projects the columns the top had at the set operation to the columns it keeps after the split: same count, same order, lists of any length), incomplete_mapping_is_not_stored, stored_mapping_is_not_overwritten, activate_takes_the_mapping / activate_without_mapping_resets (a mapping is used by the one relation it was stored for and never leaks into the next), constraints_hold_only_selected_columns (inlined helper columns do not count as columns of the top). Ties: every recorded call of the positional mapper is replayed through the mirror; set operations whose top is pruned / reordered around them (chained derives, double appends) are bound on SQLite; the recorded nesting of every compilation is replayed through "
          "Model.CteOrder (reference by name / sub-query / CTE pushed, in order); every call of extract_atomic "
          "made while compiling the corpus is recorded (cargo feature verif) and replayed through the Lean mirror - rest / missing / "
          "Select / kept transforms / fresh ids / redirected pipeline must agree exactly - and the executable scope predicates are "
@@ -32,8 +32,8 @@ MANIFEST = dict(
          "non-executable dialects the claim is 'parses', binding is checked on SQLite only. The scope theorems speak about the "
          "requirement bookkeeping of the splitter (what get_requirements declares as read); that gen_query prints nothing else is "
          "covered by the SQLite bind run, and the ORDER BY that postprocess derives from a take's embedded sort is outside the theorem "
-         "(listed finding orderby-column-out-of-scope lives there). Preprocess (distinct / set-operation recognition), compile_loop and "
-         "CTE naming are not mirrored; the bodies of the relations (which references a compilation makes) are taken from the recording.",
+         "(listed finding orderby-column-out-of-scope lives there). compile_loop and "
+         "CTE naming are not mirrored (the preprocess stages are mirrored under C01); the bodies of the relations (which references a compilation makes) are taken from the recording.",
     technique="Lean 4 proofs: scope invariant of the mirrored pipeline splitter (induction over the back-to-front scan) + dialect clause rules over regenerated flags; "
               "replay of every recorded split through the mirror; per-dialect parse / SQLite bind run", ref="4/C07")
 
@@ -150,7 +150,9 @@ def run(ctx):
     br = vlib.standard_proof_obligations(ctx, ["PrqlModel.Props.C07"], ["Dialects"],
         required_theorems=["fetch_needs_offset_and_order", "limit_xor_fetch", "fetch_dialects", "clauses_select_range", "takes_emitted_correctly",
                             "split_scope_closed", "missing_provided_by_preceding", "anchored_block_closed", "split_closed_monitor",
-                            "preceding_is_wellformed", "table_refs_are_defined_earlier", "no_relation_is_defined_twice"])
+                            "preceding_is_wellformed", "table_refs_are_defined_earlier", "no_relation_is_defined_twice",
+                            "stored_mapping_reprojects_before_to_after", "incomplete_mapping_is_not_stored", "stored_mapping_is_not_overwritten",
+                            "activate_takes_the_mapping", "activate_without_mapping_resets", "constraints_hold_only_selected_columns"])
     ctx.rule = ("(i) take chains x {sorted, unsorted} x 12 dialects: LIMIT/OFFSET/FETCH/ORDER BY filler of the real SQL vs the Lean clause "
                 "mirror; (ii) every accepted program of the corpus x 12 dialects parsed with sqlparser's dialect grammar (one statement); "
                 "(iii) generated relational programs executed on SQLite (sqlite and generic targets); a case = (program, dialect); "
@@ -301,6 +303,8 @@ def run(ctx):
                 ctx.oracle_failure(fid, f"{target}: SQLite rejects the emitted SQL: {r['detail']}",
                                    {"prql": c.prql, "target": target, "sql": r.get("sql"), "db": c.db, "schema": c.schema_list, "detail": r["detail"], "class": fid},
                                    det_key=(orig.prql, target, "bind") if getattr(orig, "det", False) else None)
+    # set operations whose top input is pruned / reordered around them: both branches must still have the same number of columns
+    appendshapes.run(ctx, bind_only=True)
     # (iv) the splitter mirror: every call of extract_atomic recorded while compiling the corpus is replayed through
     # Model.Anchor.splitOffBack / anchorSplit (exact agreement), and the scope predicates are evaluated on the real pipelines
     trace_progs = [p for _, p in progs if not re.search(r"^\s*prql ", p, re.M)] + [c.prql for c in gen_cases]
@@ -313,6 +317,9 @@ def run(ctx):
         n_c, n_cbad, _ = ctetrace.run_suite(ctx, trace_progs, "ctes", targets=("sql.sqlite", "sql.postgres"))
         ctx.obligation("correspondence: compile_relation_instance (by name / sub-query / CTE, order of the WITH list) = Model.CteOrder.compileMain on the "
                        "recorded nesting of every compilation", n_cbad == 0 and n_c > 0, f"{n_c} compilations replayed, {n_cbad} differ")
+        n_pm, n_pmbad, _ = postrace.run_suite(ctx, [p_["prql"] for p_ in appendshapes.programs()] + trace_progs[:400 if quick else 2500], "positional", targets=("sql.sqlite", "sql.postgres"))
+        ctx.obligation("correspondence: the positional mapper of set operations = Model.Positional on every recorded call (constraints call by call, "
+                       "stored / activated / applied mappings as one state machine per compilation)", n_pmbad == 0 and n_pm > 0, f"{n_pm} recorded calls replayed, {n_pmbad} differ")
     else:
         ctx.count("anchor:skipped (tree has no `verif` hooks)")
         ctx.assumptions.append("the split trace hook is not available in this tree: the splitter mirror was not compared this run")
